@@ -3,7 +3,7 @@
 patch="$1"; prop="$2"; tier="${3:-quick}"
 cd /repo || exit 2
 if ! git apply --check "$patch" 2>/dev/null; then
-  if ! git apply --3way "$patch" 2>/tmp/apply.err; then echo "PATCH DOES NOT APPLY: $patch"; cat /tmp/apply.err | head -5; git reset -q HEAD; git checkout -- . ; exit 3; fi
+  if ! git apply --3way $APPLY_OPTS "$patch" 2>/tmp/apply.err; then echo "PATCH DOES NOT APPLY: $patch"; cat /tmp/apply.err | head -5; git reset -q HEAD; git checkout -- . ; exit 3; fi
 else
   git apply "$patch"
 fi
